@@ -89,7 +89,7 @@ def reverse_loop(chk, cfg, b, rule, what, obj, paths_filter=None):
         return False
     ex, it = rets[0], conts[0]
     name, oksrc = chunk_source(ex, obj)
-    eff = [short(k) for k, a, r, ev in an.calls_on(ex, obj) if short(k) not in READS]
+    eff = [short(k) for k, a, r, ev in an.calls_on(ex, obj) if short(k) not in READS + ("from_bitslice", "load_le", "to_bitvec", "hash", "eq")]
     # whole-content reverse happens exactly once and before the chunking
     okorder = eff[:1] == ["reverse"] and eff.count("reverse") == 1 and all(e in CHUNKERS for e in eff[1:]) and len(eff) == 2
     chk.ob(rule + "/whole", what, okorder and oksrc,
